@@ -11,6 +11,7 @@ import tokenize
 
 from .. import oracle as O
 from ..core import CaseTimeout, deadline
+from ..fstnav import live_vs_parse
 
 ID = 'C19'
 LEVEL = 'model_checking'
@@ -287,6 +288,20 @@ SLOTS = [
     ('with z: pass', lambda r: r.body[0], 'items', '_withitems'),
     ('match s:\n case z: pass', lambda r: r.body[0].cases[0], 'pattern', 'pattern'),
     ('del z', lambda r: r.body[0], 'targets', 'Tuple'),
+    ('class C(z): pass', lambda r: r.body[0], '_bases', '_arglikes'),
+    ('def f[Z](): pass', lambda r: r.body[0], 'type_params', '_type_params'),
+    ('match s:\n case C(z): pass', lambda r: r.body[0].cases[0].pattern, '_attrs', '_pattern_attrlikes'),
+    ('match s:\n case [z]: pass', lambda r: r.body[0].cases[0].pattern, 'patterns', 'pattern'),
+    ('y = [x for z in w]', lambda r: r.body[0].value, 'generators', '_comprehensions'),
+    ('@z\ndef f(): pass', lambda r: r.body[0], 'decorator_list', '_decorator_list'),
+    ('z = v', lambda r: r.body[0], 'targets', '_Assign_targets'),
+    ('y = [z]', lambda r: r.body[0].value, 'elts', 'List'),
+    ('y = {z: 1}', lambda r: r.body[0].value, '_all', 'Dict'),
+    ('if c:\n    z', lambda r: r.body[0], 'body', 'stmts'),
+    ('from m import z', lambda r: r.body[0], 'names', '_aliases'),
+    ('global z', lambda r: r.body[0], 'names', 'Tuple'),
+    ('y = f(k=z)', lambda r: r.body[0].value.keywords[0], 'value', 'expr'),
+    ('for z in w: pass', lambda r: r.body[0], 'target', 'expr'),
 ]
 
 
@@ -304,10 +319,13 @@ def run_slots(fst, res):
                         code = code.as_(smode)
                     root = fst.FST(host, 'exec')
                     n = get(root)
-                    if field in ('value', 'args', 'pattern'):
+                    if field in ('value', 'args', 'pattern', 'target'):
                         n.put(code, field=field, norm=True)
                     else:
                         n.put_slice(code, 0, 'end', field, norm=True)
+                    bad = live_vs_parse(root, 'Module')
+                    if bad:
+                        res.fail(cid + ('/explicit' if explicit else '/implicit'), 'C01-after-coercing-put', f'host={host!r} code={src!r} ({mode})\n{bad}', {'slot': field, 'code_has_comment': '#' in src}, rep)
                     outs.append(('ok', O.dump(ast.parse(root.src)), root.src))
                     res.transitions += 1
                 except Exception as e:  # noqa: BLE001
